@@ -1,5 +1,5 @@
 import TeaalVerif.Driver.C01
-import TeaalVerif.Props.C04Part
+import TeaalVerif.Props.C04PartB
 open Lean
 namespace Driver
 open Nest HF
@@ -109,6 +109,7 @@ partial def fiberUses : Expr → List FiberUse
       | some (.lambda [p] body) =>
         let hi := match kwArg kw args "interval" with
           | some (.tuple [.int 0, hi]) => some hi
+          | some (.tuple [.var lo, .var hi]) => some (.tuple [.var lo, .var hi])       -- data-dependent interval (q0_start, q0_end)
           | _ => none
         some (p, body, hi)
       | _ => none
@@ -148,7 +149,7 @@ def expectedUses (S : EinsumAS) : List (String × List (String × (Bool × Bool)
     | [], _ => []
     | r :: rest, pend =>
       let act := pend.filterMap fun ps => match ps with
-        | p :: _ => if readyT r p.cur && p.tensor != "tile__" then some (p.tensor.toLower ++ "_" ++ p.rank.toLower, (p.proj, p.ivl), p.orig) else none
+        | p :: _ => if readyT r p.cur && p.tensor != "tile__" && p.tensor != "tileB__" then some (p.tensor.toLower ++ "_" ++ p.rank.toLower, (p.proj, p.ivl), p.orig) else none
         | [] => none
       let out := if S.outVars.contains r then [(S.outName.toLower ++ "_" ++ r, (false, false), (⟨[(1, r)], 0⟩ : AffS))] else []
       let pend' := pend.map fun ps => match ps with
@@ -186,6 +187,8 @@ def checkLoop (exp : String × List (String × (Bool × Bool) × AffS)) (act : S
         (if lambdaOK r e p body then [] else [s!"loop {r}: trans_fn of {fib} ({body.gen}) is not the inverse of the access"]) ++
         (match ivl, hi with
          | true, some (.var X) => if X == r.toUpper then [] else [s!"loop {r}: interval of {fib} ends at {X}"]
+         | true, some (.tuple [.var lo, .var hi']) =>
+           if lo == r ++ "_start" && hi' == r ++ "_end" then [] else [s!"loop {r}: interval ({lo}, {hi'}) on the projection of {fib}"]
          | true, _ => [s!"loop {r}: no interval (0, {r.toUpper}) on the projection of {fib}"]
          | false, none => []
          | false, some _ => [s!"loop {r}: the model expects no interval on the projection of {fib}"]) ++
@@ -199,12 +202,16 @@ structure PartSpec where
   q : String                       -- the partitioned index variable
   n : Nat                          -- partition size
   followers : List (String × Nat)  -- (tensor, rank index) of the accesses a*q + rho that follow
+  modeB : Bool := false            -- the lower output level is reached through a projection with the interval (q0_start, q0_end)
 
 def partOfJson (j : Json) : Except String PartSpec := do
   let fs ← (← HF.arr (← fld j "followers")).toList.mapM fun f => do
     let a ← HF.arr f
     pure ((← HF.strOf a[0]!), (← natOf a[1]!))
-  pure ⟨← HF.strOf (← fld j "q"), ← natOf (← fld j "n"), fs⟩
+  let mb := match j.getObjVal? "mode" with
+    | .ok (.str "B") => true
+    | _ => false
+  pure ⟨← HF.strOf (← fld j "q"), ← natOf (← fld j "n"), fs, mb⟩
 
 /-- the configuration of `Props/C04Part` for a partition spec: follower index, step and halo per tensor name -/
 def partCfgOf (S0 : EinsumAS) (ps : PartSpec) : C04.PartCfg × (String → Nat) :=
@@ -219,6 +226,18 @@ def partCfgOf (S0 : EinsumAS) (ps : PartSpec) : C04.PartCfg × (String → Nat) 
   let haloF : String → Nat := fun nm => (((accOfT nm).rest ps.q).map fun t => t.1.toNat * (ext t.2 - 1)).sum
   ({ q := ps.q, q0 := ps.q ++ "0", q1 := ps.q ++ "1", n := ps.n, fol := fol, stepF := stepF, haloF := haloF }, ext)
 
+/-- the partitions present at the upper level: the coordinates at which every follower of the (single) term has a partition -/
+def presentParts (S0 : EinsumAS) (env : String → Pts) (ps : PartSpec) (c : C04.PartCfg) : List Nat :=
+  let tensors := S0.terms.flatMap (·.tensors)
+  let per := ps.followers.map fun (nm, i) =>
+    let A := match tensors.find? (fun (x : TensorAS) => x.name == nm) with
+      | some x => ((x.idx.getD i default).e.coef ps.q).toNat
+      | none => 1
+    (heads (C04.splitHaloAt i (c.stepF nm) (c.haloF nm) (env nm))).map (· / A)
+  match per with
+  | [] => []
+  | p :: rest => (p.filter fun k => rest.all fun l => l.contains k).mergeSort
+
 /-- the partitioned form (`C04.convTerm` / `C04.convEnv`): `q` becomes `(q1, q0)`; a follower access `a*q + rho` on rank `R` becomes
     `(a*q1, a*q0 + rho)` on `(R1, R0)` of the halo-split tensor; the tile tensor `T'[q0 - q1]` stands for the range loop
     `iterRangeShapeRef(q1, min(q1 + n, Q))`.  Returns the Einsum, its inputs and, per follower, (tensor, depth, step, halo). -/
@@ -226,9 +245,15 @@ def partitionedForm (S0 : EinsumAS) (env : String → Pts) (ps : PartSpec) (loop
     EinsumAS × (String → Pts) × List (String × Nat × Nat × Nat) :=
   let (c, _) := partCfgOf S0 ps
   let splits := ps.followers.map fun (nm, i) => (nm, i, c.stepF nm, c.haloF nm)
-  ({ loop := loop, exts := exts, outName := S0.outName, outVars := S0.outVars.map fun v => if v == ps.q then c.q0 else v,
-     terms := S0.terms.map (C04.convTerm c) },
-   C04.convEnv c env, splits)
+  let Qx := ((loop.zip exts).lookup c.q0).getD 0
+  if ps.modeB then
+    ({ loop := loop, exts := exts, outName := S0.outName, outVars := S0.outVars.map fun v => if v == ps.q then c.q0 else v,
+       terms := S0.terms.map (C04.convTermB c) },
+     C04.convEnvB c (presentParts S0 env ps c) Qx env, splits)
+  else
+    ({ loop := loop, exts := exts, outName := S0.outName, outVars := S0.outVars.map fun v => if v == ps.q then c.q0 else v,
+       terms := S0.terms.map (C04.convTerm c) },
+     C04.convEnv c env, splits)
 
 /-- numeric value of an emitted bound / step expression (`int(x)`, `min(a, b)`, `+ - *`, names from the environment) -/
 partial def evalNum (env : String → Option Int) : Expr → Option Int
@@ -277,8 +302,41 @@ partial def rangeLoops (env : String → Option Int) (q1 : String) (tests : List
     | _ => rangeLoops env q1 tests b
   | _ => []
 
+partial def allStmts : Stmt → List Stmt
+  | .block ss => ss.flatMap allStmts
+  | .for_ p e b => .for_ p e b :: allStmts b
+  | .if_ c t ec es el => .if_ c t ec es el :: (allStmts t ++ es.flatMap allStmts ++ (match el with | some x => allStmts x | none => []))
+  | s => [s]
+
+/-- interval logic of the partitioned output: the two `if` statements that set `(q0_start, q0_end)` from the position in the upper
+    level and the eagerly computed upper-level coordinates, and `inputs_q1 = Fiber.fromLazy(<the inputs co-iterated at q1>)` -/
+def intervalErrors (q : String) (s : Stmt) : List String :=
+  let q1 := q ++ "1"
+  let q0 := q ++ "0"
+  let all := allStmts s
+  let texts := all.map fun st => st.gen 0
+  let ifStart := s!"if {q1}_pos == 0:\n    {q0}_start = 0\nelse:\n    {q0}_start = {q1}"
+  let ifEnd := s!"if {q1}_pos + 1 < len(inputs_{q1}):\n    {q0}_end = inputs_{q1}.getCoords()[{q1}_pos + 1]\nelse:\n    {q0}_end = {q.toUpper}"
+  let e1 := if texts.contains ifStart then [] else [s!"no statement `{ifStart}`"]
+  let e2 := if texts.contains ifEnd then [] else [s!"no statement `{ifEnd}`"]
+  let lazyE := all.findSome? fun st => match st with
+    | .assign (.var x) (.method (.var "Fiber") "fromLazy" _ [e]) => if x == "inputs_" ++ q1 then some e.gen else none
+    | _ => none
+  let loopE := all.findSome? fun st => match st with
+    | .for_ (.tuple [.var p, _]) e _ =>
+      if p == q1 ++ "_pos" then
+        match (HF.stripEnumerate e).1 with
+        | .binop _ .ltlt r => some (match r with | .parens x => x.gen | x => x.gen)
+        | _ => none
+      else none
+    | _ => none
+  let e3 := match lazyE, loopE with
+    | some a, some b => if a == b then [] else [s!"inputs_{q1} is computed from `{a}`, the loop over {q1} co-iterates `{b}`"]
+    | _, _ => [s!"inputs_{q1} = Fiber.fromLazy(...) or the enumerated loop over {q1} not found"]
+  e1 ++ e2 ++ e3
+
 def nestAff (j : Json) : Except String Json := do
-  let (S0, env) ← einsumASOfJson j
+  let (S0, env0) ← einsumASOfJson j
   -- with an own-rank loop the terms arrive as the user wrote them; the loop-variable form is computed here (C04.loopFormTerms)
   let own ← match j.getObjVal? "own" with
     | .ok oj => do pure (some (← ownOfJson oj))
@@ -287,12 +345,12 @@ def nestAff (j : Json) : Except String Json := do
     | .ok pj => do pure (some (← partOfJson pj))
     | .error _ => pure none
   let (S, env, splits) ← match own, part with
-    | some o, _ => pure ({ S0 with terms := C04.loopFormTerms o.s o.w o.c0 o.rho S0.terms }, env, [])
+    | some o, _ => pure ({ S0 with terms := C04.loopFormTerms o.s o.w o.c0 o.rho S0.terms }, env0, [])
     | none, some ps => do
       let loop2 ← strList (← fld j "loop2")
       let exts2 ← natList (← fld j "exts2")
-      pure (partitionedForm S0 env ps loop2 exts2)
-    | none, none => pure (S0, env, [])
+      pure (partitionedForm S0 env0 ps loop2 exts2)
+    | none, none => pure (S0, env0, [])
   let ls := levelsA S
   let sts := initTermsA S env
   let r := collectA S (runA ls sts)
@@ -302,7 +360,7 @@ def nestAff (j : Json) : Except String Json := do
       let R := (S.loop.zip S.exts).filter fun p => p.1 != o.w
       let We := ((S.loop.zip S.exts).lookup o.w).getD 0
       decide ((S.loop.zip S.exts).Perm (R ++ [(o.w, We)])) &&
-        decide (C04.VarHyps o.s o.w o.c0 o.rho o.Se We (concord S.loop S.outVars) S0.terms env)
+        decide (C04.VarHyps o.s o.w o.c0 o.rho o.Se We (concord S.loop S.outVars) S0.terms env0)
     | none => true
   let partOK := match part with
     | some ps =>
@@ -313,7 +371,8 @@ def nestAff (j : Json) : Except String Json := do
       let out0 := (concord S.loop S.outVars).map fun v => if v == c.q0 then c.q else v
       decide ((S.loop.zip S.exts).Perm (R ++ [(c.q0, Qx)] ++ [(c.q1, E1)])) &&
         decide (concord S.loop S.outVars = out0.map fun v => if v = c.q then c.q0 else v) &&
-        decide (C04.PartHyps c ext R Qx E1 out0 S0.terms)
+        (if ps.modeB then decide (C04.PartHypsB c ext R Qx E1 out0 S0.terms env0 (presentParts S0 env0 ps c))
+         else decide (C04.PartHyps c ext R Qx E1 out0 S0.terms))
     | none => true
   let hyps := decide (C04.HypsA S env) && varOK && partOK
   -- the partitioned output takes part in the loop over the upper level as well (its upper coordinate is merged away afterwards)
@@ -321,7 +380,13 @@ def nestAff (j : Json) : Except String Json := do
     match part with
     | some ps => if v == ps.q ++ "1" then (v, (S.outName.toLower ++ "_" ++ v, (false, false), (⟨[(1, v)], 0⟩ : AffS)) :: es) else (v, es)
     | none => (v, es)
-  let base := [("run", jPts r), ("spec", jPts m), ("hyps_ok", Json.bool hyps),
+  -- a present partition at or beyond the extent: the last interval is not clipped there (known finding; outside PartHypsB)
+  let unclipped := match part with
+    | some ps => ps.modeB && (let (c, _) := partCfgOf S0 ps
+                              let Qx := ((S.loop.zip S.exts).lookup c.q0).getD 0
+                              (presentParts S0 env0 ps c).any fun k => decide (Qx ≤ k))
+    | none => false
+  let base := [("run", jPts r), ("spec", jPts m), ("hyps_ok", Json.bool hyps), ("unclipped", Json.bool unclipped),
                ("expected_loops", Json.arr (exp.map fun (v, es) => Json.arr #[Json.str v, jStrs (es.map (·.1))]).toArray)]
   match j.getObjVal? "tree" with
   | .ok tj =>
@@ -349,8 +414,8 @@ def nestAff (j : Json) : Except String Json := do
         let e2 := match rl.find? (·.1 == ps.q ++ "0") with
           | some (_, true) => []
           | some (_, false) => [s!"the range loop over {ps.q}0 does not run from {ps.q}1 to min({ps.q}1 + {ps.n}, extent)"]
-          | none => if plainFollower then [] else [s!"no iterRangeShapeRef loop over {ps.q}0"]
-        pure (e1 ++ e2)
+          | none => if plainFollower || ps.modeB then [] else [s!"no iterRangeShapeRef loop over {ps.q}0"]
+        pure (e1 ++ e2 ++ (if ps.modeB then intervalErrors ps.q s else []))
     let errs := errs0 ++ errsP
     return Json.mkObj (base ++ [("skeleton_errors", jStrs errs),
       ("actual_loops", Json.arr (act.map fun (v, us) => Json.arr #[Json.str v, jStrs (us.map (·.fiber))]).toArray)])
